@@ -181,7 +181,7 @@ for _pid in ("C04", "C12"):
         bounds=dict(quick="M in 0..5", thorough="M in 0..7"),
         assumptions=["time model of DESIGN 3.6: lower bounds only (arbitrary delays anywhere); Sleep(d) advances by >= d",
                      "count formulas follow from the per-batch facts: count <= (k+1)*Q and t >= k*I  =>  count <= Q*(floor(t/I)+1); window: (j-i-1)*I <= W => count <= Q*(floor(W/I)+2)"],
-        groups=[dict(mod="v2", pkg="limit", overlay="harness/v2/limit", harness="^VerifC04_limit_run", params=_LIM, timeout=dict(quick=120000, thorough=300000))])
+        groups=[dict(mod="v2", pkg="limit", overlay="harness/v2/limit", harness="^VerifC04_limit_run", params=_LIM, timeout=dict(quick=120000, thorough=600000))])
 
 # ---- priority discipline ------------------------------------------------------------------------------
 
